@@ -25,17 +25,24 @@ def atom(draw, depth):
 @st.composite
 def quantified(draw, depth):
     a = draw(atom(depth))
-    q = draw(st.sampled_from([None, None, "?", "*", "+", "{m}", "{m,}", "{m,n}"]))
+    if depth == 0 or a[0] in ("group", "alt"):
+        # inside a group, and on a group itself, only bounded quantifiers: nesting unbounded repetition gives patterns
+        # with exponential matching time in backtracking engines (the matcher cannot be interrupted from Python)
+        q = draw(st.sampled_from([None, None, "?", "{m}", "{m,n}"]))
+        small = a[0] in ("group", "alt")
+    else:
+        q = draw(st.sampled_from([None, None, "?", "*", "+", "{m}", "{m,}", "{m,n}"]))
+        small = False
     if q is None:
         return a
     lazy = draw(st.booleans()) and draw(st.booleans())
     if q == "?": m, n = 0, 1
     elif q == "*": m, n = 0, None
     elif q == "+": m, n = 1, None
-    elif q == "{m}": m = draw(st.integers(0, 4)); n = m
+    elif q == "{m}": m = draw(st.integers(0, 2 if small else 4)); n = m
     elif q == "{m,}": m = draw(st.integers(0, 4)); n = None
     else:
-        m = draw(st.integers(0, 4)); n = m + draw(st.integers(0, 4))
+        m = draw(st.integers(0, 2 if small else 4)); n = m + draw(st.integers(0, 2 if small else 4))
     return ("rep", a, m, n, q, lazy)
 
 @st.composite
